@@ -101,6 +101,22 @@ def all_specs(l2d_ok: bool, bal_int_ok: bool):
     return specs
 
 
+def raising_specs():
+    """Configurations on which a tentative request fails HALF-WAY (after points were handed out inside the rolled-back call):
+    BalancingLearner over SequenceLearners of unequal length incl. a nearly exhausted one; IntegratorLearner on a domain so
+    narrow that the intervals cannot be refined further.  A tentative ask that raises must leave no trace either and raise
+    the same exception when repeated; probed with large n (spec key big_n)."""
+    specs = []
+    for i, st in enumerate(G.STRATEGIES):
+        specs.append({"kind": "Bal", "child": {"kind": "Seq", "n": 12, "elements": "int"}, "child_ns": [3, 12], "nchild": 2,
+                      "strategy": st, "big_n": True})
+        specs.append({"kind": "Bal", "child": {"kind": "Seq", "n": 9, "elements": "list"}, "child_ns": [[1, 9, 4], [5, 2, 9]][i % 2],
+                      "nchild": 3, "strategy": st, "big_n": True})
+    specs += [{"kind": "Int", "bounds": [0.0, 1e-12], "big_n": True}, {"kind": "Int", "bounds": [1.0, 1.000000001], "big_n": True},
+              {"kind": "DS", "child": {"kind": "Int", "bounds": [0.0, 1e-12]}, "big_n": True}]
+    return specs
+
+
 def l2d_smoke():
     """None when Learner2D can go beyond its four corners, else the exception."""
     ad = G.adapter({"kind": "L2D"})
@@ -733,7 +749,7 @@ def run_case(args):
     rng = random.Random(seed)
     fragile = spec["kind"] == "Bal" or G.base_kind(spec) == "Int"
     H = drive_history(ad, rng, nops, commit_only=fragile, directed=directed)
-    fails, probes, with_pending, known_hits = [], 0, 0, 0
+    fails, probes, with_pending, known_hits, raising = [], 0, 0, 0, 0
     nhist = {}
     if len(H) > 3 * nops:           # long scripted opening (integrator): probe its end and the random tail
         positions = list(range(len(H) - nops, len(H) + 1, stride))
@@ -741,6 +757,8 @@ def run_case(args):
         positions = list(range(0, len(H) + 1, stride))
     for k in positions:
         n = rng.randint(0, 12) if rng.random() < 0.6 else rng.choice([1, 2, 3])
+        if spec.get("big_n") and rng.random() < 0.7:
+            n = rng.choice([6, 8, 13, 20, 40, 60])       # large enough to fail half-way
         prefix = H[:k]
         try:
             f, known = probe_state(ad, prefix, n, seed * 1000 + k)
@@ -750,12 +768,14 @@ def run_case(args):
         nhist[n] = nhist.get(n, 0) + 1
         Lr = G.replay(ad, prefix)
         with_pending += bool(ad.pending(Lr))
+        if spec.get("big_n"):
+            raising += G.is_exc(G.apply_op(ad, Lr, ["ask", n, False])) and n > 0
         known_hits += known
         for sig, what in f:
             fails.append({"signature": sig, "what": what, "replay": {"spec": spec, "ops": prefix, "n": n, "seed": seed * 1000 + k}})
         if len(fails) >= 3:
             break
-    return {"spec": spec, "len": len(H), "probes": probes, "with_pending": with_pending, "fails": fails,
+    return {"spec": spec, "len": len(H), "probes": probes, "with_pending": with_pending, "fails": fails, "raising": raising,
             "n_hist": nhist, "ops": H[:10], "kinds": [op[0] for op in H]}
 
 
@@ -940,7 +960,7 @@ def run(chk: Check) -> int:
     if bi_exc:
         chk.fail(SIG_F16, f"BalancingLearner([IntegratorLearner, ...]).ask(1) raises {G.short(bi_exc)}",
                  {"spec": {"kind": "Bal", "child": {"kind": "Int"}, "nchild": 2, "strategy": "cycle"}, "ops": [], "n": 1, "smoke": "balint"})
-    specs = all_specs(l2d_ok=not l2d_exc, bal_int_ok=not bi_exc)
+    specs = all_specs(l2d_ok=not l2d_exc, bal_int_ok=not bi_exc) + raising_specs()
     per = 8 if chk.quick else 40
     nops = 16 if chk.quick else 40
     stride = 1 if chk.quick else 2
@@ -990,9 +1010,11 @@ def run(chk: Check) -> int:
             chk.fail(f["signature"], f["what"], f["replay"])
     chk.extra["minimised_failing_inputs"] = {s: {"learner": G.spec_name(f["replay"]["spec"]), "ops": f["replay"]["ops"], "n": f["replay"]["n"]}
                                              for s, f in shrunk.items()}
+    chk.extra["tentative_asks_that_raised_half_way_configs"] = sum(r.get("raising", 0) for r in results)
     chk.extra.update({"twin_experiments_per_learner_type": per_type, "request_size_histogram": dict(sorted(nhist.items())),
                       "op_histogram": kinds, "configurations": len(specs), "exhaustive": False,
                       "learner2d_runs_here": not l2d_exc, "balancing_over_integrator_can_ask": not bi_exc})
+    chk.log(f"twin oracle: {sum(r.get('raising', 0) for r in results)} probed tentative asks raised (configurations that fail half-way)")
     chk.log(f"twin oracle: {len(results)} histories, {sum(r['probes'] for r in results)} probed states, "
             f"{len(chk.failures)} failures ({len({f['signature'] for f in chk.failures})} signatures)")
     return chk.finish(
